@@ -262,3 +262,98 @@ Example C12_witness_http :
   http_reply 0 3 b#"5" = HErr HTransport /\
   (count_ok [placeholder; rOk (IdNum 1) b#"""c"""; placeholder], count_err [placeholder; rOk (IdNum 1) b#"""c"""; placeholder]) = (1, 2)%nat.
 Proof. vm_compute. repeat split. Qed.
+
+(* ------------------------------------------------------------------ REAL threads on the request-id allocator
+   `RequestIdManager` (core/src/client/mod.rs) is one shared counter reached through `&self` by every front-end call of the
+   async/WebSocket client and of the HTTP client, possibly from different threads.  HOW `next_request_id` and
+   `next_batch_id_range` touch the counter is read from the source on every check (tools/translators/id_alloc.py ->
+   Gen/IdAllocGen.id_alloc_gen): RAtomicRmw = one atomic read-modify-write, the ids computed from the value it returned;
+   RLoadThenStore = load, validate, then advance.  Model/IdAlloc.v interprets the record as a transition system over the
+   counter whose steps are the ATOMIC actions of each path; a schedule is a list of (thread, step) -- `SReserve r`: the
+   thread starts reservation r (an RAtomicRmw path completes it in that step), `SFinish`: the thread performs the second
+   step of its pending two-step reservation; steps that a sequential thread cannot take stutter, so EVERY list is a
+   schedule of some number of threads each performing some sequence of single-id and batch reservations.
+   Vocabulary: `total sc` the ids asked for, `reservations sc` the (thread, amount) pairs in schedule order, `handed` the
+   ranges [lo, hi) returned, `on_one_thread sc` the same steps all on thread 0; specification part of
+   Proofs/IdAllocFacts.v: `ev_reqs` / `hist_reqs` (the reservations behind the events of Model/ClientMgr.v, from the
+   generated front_takes_gen), `apply_with` / `fed_run` (ClientMgr's apply / run taking ids from a supply list). *)
+From JV Require Import Model.IdAlloc Gen.IdAllocGen Proofs.IdAllocFacts.
+
+(* every generated path is ONE atomic RMW, HENCE for every interleaving (while fewer than 2^64 ids have been taken): no id
+   belongs to two of the ranges handed out, the counter ends at start + total, no thread is left between two steps, no
+   reservation fails, every reservation (in schedule order, with its thread) got a range of the length it asked for inside
+   [start, start+total), and the ranges are those of the same reservations made in the same order on ONE thread.  With a
+   load-then-store path the first conjunct is false by computation and the proof does not build. *)
+Theorem C12_id_ranges_disjoint_under_interleaving :
+  (single_path id_alloc_gen = RAtomicRmw /\ batch_path id_alloc_gen = RAtomicRmw) /\
+  forall (start : N) (sc : list (thread * alloc_step)), start + total sc < 2 ^ counter_bits id_alloc_gen ->
+    let st := alloc_run id_alloc_gen (alloc_init start) sc in
+    (forall i j t1 lo1 hi1 t2 lo2 hi2 k, i <> j ->
+       nth_error (handed st) i = Some (t1, (lo1, hi1)) -> nth_error (handed st) j = Some (t2, (lo2, hi2)) ->
+       ~ (lo1 <= k < hi1 /\ lo2 <= k < hi2)) /\
+    counter st = start + total sc /\ pend st = [] /\ failed st = [] /\
+    map (fun x : thread * (N * N) => (fst x, snd (snd x) - fst (snd x))) (handed st) = reservations sc /\
+    (forall t lo hi, In (t, (lo, hi)) (handed st) -> start <= lo /\ lo <= hi /\ hi <= start + total sc) /\
+    map snd (handed st) = map snd (handed (alloc_run id_alloc_gen (alloc_init start) (on_one_thread sc))).
+Proof. exact id_ranges_disjoint_under_interleaving. Qed.
+Print Assumptions C12_id_ranges_disjoint_under_interleaving.
+
+(* "validate the batch range first, then take it" (batch path = RLoadThenStore, either way of advancing): two threads, one
+   batch each, both load before either advances -> both are handed a range starting at 0 (id 0 belongs to both); with
+   `store` the counter even ends below start + total; the generated allocator hands out (0,3),(3,5) on the same schedule,
+   and on ONE thread the two-step allocator does too (the change is invisible there) *)
+Theorem C12_load_then_store_refuted :
+  exists sc : list (thread * alloc_step),
+    (forall x, In x sc -> fst x = 0%nat \/ fst x = 1%nat) /\
+    reservations sc = [(0%nat, 3); (1%nat, 2)] /\
+    (forall adv, let st := alloc_run (id_alloc_load_then_store adv) (alloc_init 0) sc in
+       pend st = [] /\ failed st = [] /\ handed st = [(0%nat, (0, 3)); (1%nat, (0, 2))] /\
+       exists k, 0 <= k < 3 /\ 0 <= k < 2) /\
+    counter (alloc_run (id_alloc_load_then_store AdvFetchAdd) (alloc_init 0) sc) = 5 /\
+    counter (alloc_run (id_alloc_load_then_store AdvStore) (alloc_init 0) sc) = 2 /\
+    handed (alloc_run id_alloc_gen (alloc_init 0) sc) = [(0%nat, (0, 3)); (1%nat, (3, 5))] /\
+    (forall adv, handed (alloc_run (id_alloc_load_then_store adv) (alloc_init 0)
+                   [(0%nat, SReserve (QBatch 3)); (0%nat, SFinish); (0%nat, SReserve (QBatch 2)); (0%nat, SFinish)])
+                 = [(0%nat, (0, 3)); (0%nat, (3, 5))]).
+Proof. exact load_then_store_refuted. Qed.
+Print Assumptions C12_load_then_store_refuted.
+
+(* the ids Model/ClientMgr.v's FCall / FNotify / FBatch / FSubscribe events take by arithmetic on `next_id` are exactly
+   what the generated allocator hands out along the ONE-thread schedule of the reservations behind the history: the run
+   fed by that supply IS the run (nothing of the supply is left), the model's counter is the allocator's, and event by
+   event `apply` is `apply_with` on the allocator's answer (from any state, unless the counter would wrap).  Together with
+   the last conjunct of C12_id_ranges_disjoint_under_interleaving (every thread-level schedule hands out the ranges of
+   its one-thread linearisation) the id sequences of the model are those of thread-level executions *)
+Theorem C12_sequential_allocation_is_an_interleaving : forall (s : st) (es : list ev),
+  let sc := seq_sched 0%nat (hist_reqs s es) in
+  next_id s + total sc < 2 ^ counter_bits id_alloc_gen ->
+  let a := alloc_run id_alloc_gen (alloc_init (next_id s)) sc in
+  fed_run s es (map snd (handed a)) = Some (run s es, []) /\
+  next_id (fst (run s es)) = counter a /\
+  (forall e, apply s e = apply_with s e (map snd (handed (alloc_run id_alloc_gen (alloc_init (next_id s)) (seq_sched 0%nat (ev_reqs s e)))))
+             \/ 2 ^ counter_bits id_alloc_gen <= next_id s + total_reqs (ev_reqs s e)).
+Proof. exact sequential_allocation_is_an_interleaving. Qed.
+Print Assumptions C12_sequential_allocation_is_an_interleaving.
+
+(* non-vacuity: three threads, singles and batches interleaved, on the generated allocator *)
+Example C12_witness_interleaved_allocation :
+  let sc := [(0%nat, SReserve (QBatch 3)); (2%nat, SReserve QSingle); (1%nat, SReserve (QBatch 2)); (0%nat, SFinish);
+             (2%nat, SReserve QSingle); (1%nat, SReserve QSingle)] in
+  let st := alloc_run id_alloc_gen (alloc_init 7) sc in
+  handed st = [(0%nat, (7, 10)); (2%nat, (10, 11)); (1%nat, (11, 13)); (2%nat, (13, 14)); (1%nat, (14, 15))] /\
+  counter st = 15 /\ total sc = 8 /\
+  reservations sc = [(0%nat, 3); (2%nat, 1); (1%nat, 2); (2%nat, 1); (1%nat, 1)] /\
+  hist_reqs (init false 4 4 false) [batch3; FCall 2 mA None; FSubscribe 3 mA b#"u" None; FNotify mA None; FBatch 4 []]
+  = [QBatch 3; QSingle; QSingle; QSingle; QSingle] /\
+  front_takes_gen = mkFront [TSingle] [TSingle] [TBatchLen] [TSingle; TSingle].
+Proof. vm_compute. repeat split. Qed.
+
+(* a batch whose range (5,8) was handed out after other threads had taken ids 0..4: positions are restored from ids 5..7 *)
+Example C12_witness_fed_by_interleaved_supply :
+  match fed_run (init false 4 4 false)
+          [batch3; Back b#"[{""jsonrpc"":""2.0"",""id"":7,""result"":""c""},{""jsonrpc"":""2.0"",""id"":5,""result"":""a""},{""jsonrpc"":""2.0"",""id"":6,""result"":""b""}]"]
+          [(5, 8); (8, 9)] with
+  | Some ((_, outs), rest) => (fst (last outs ([], None)), rest)
+  | None => ([], [])
+  end = ([OComplete 1 (CBatch [rOk (IdNum 5) b#"""a"""; rOk (IdNum 6) b#"""b"""; rOk (IdNum 7) b#"""c"""])], [(8, 9)]).
+Proof. vm_compute. reflexivity. Qed.
